@@ -216,3 +216,13 @@ Example C18_ws_nonvacuous :
   | None => false
   end = true.
 Proof. vm_compute. reflexivity. Qed.
+
+(* Source constants (translator harness/cmd/gen_consts -> Gen/Consts.v, regenerated from /repo on every
+   run): the JSON-RPC error code the client models answer with (reconnect, HTTP failure, null body) is
+   what pkg/rpcbackend/backend.go declares NOW. *)
+From Coq Require ZArith.
+From FFS Require Gen.Consts.
+Theorem C18_source_constants :
+  Gen.Consts.rpcbackend_RPCCodeInternalError = BinInt.Z.opp (BinInt.Z.of_N WsClient.Model.codeInternal).
+Proof. vm_compute. reflexivity. Qed.
+Print Assumptions C18_source_constants.
